@@ -384,7 +384,7 @@ func (g *Graph) RemoveTerm(t Term) {
 		}
 	}
 	from := g.To(t.UID)
-	if from.Next() {
+	for from.Next() {
 		lines := g.Lines(from.Node().ID(), t.UID)
 		for lines.Next() {
 			g.RemoveStatement(lines.Line().(*Statement))
